@@ -6,6 +6,12 @@ CHECKS = {
  "C05": dict(category="model_checking", technique="exhaustive enumeration of all strings up to a length bound over a 7-symbol alphabet: product of the real comment stripper with a reference automaton",
    text="Every string of length <=8 (thorough <=10) over {/,*,newline,a,blank,quote,2-byte char} goes through the real preprocess (hook H1) and the 3-state reference automaton written from the property text: both accept or both report an unterminated comment, output length equals input length, code bytes identical, comment bytes blank. The implementation reacts to (state, char class, next class) triples, all of which are reached by strings of length <=4 and continued by every 4-6 symbol suffix.",
    note="Trusted: mc/src/refsem/lexer.rs (60 lines). Part (b), transparency through the whole pipeline, is reported in the same evidence file once built.", ref="5/C05"),
+ "C06": dict(category="exploration", technique="bounded exhaustive program enumeration (operator table x literal alphabet x 3 primes; control-flow skeletons x atoms x conditions x valuations) with a reference interpreter executing the real SSA CFG and auditing every value claim at every dynamic evaluation",
+   text="Every value attached to an IR node (expression nodes, phi nodes, substitution statements) is compared with the node's concrete value at each evaluation in each run of an independent interpreter over the real SSA graph, for all 20 infix / 3 prefix / ternary / boolean-connective operators over a 14-value literal alphabet under the three primes, and for every control-flow skeleton <=3/4 statements x 7 atoms x 4 conditions (incl. uninitialised locals) as function and template, n in {0,1,2,p-1}. CS0009 and the Num2Bits size test read exactly these claims.",
+   note="Trusted: mc/src/refsem/interp.rs + refsem/field.rs. Literals below the field size; runs that trap (division by zero, unassigned signal) are discarded; values outside the alphabets are not covered.", ref="5/C06"),
+ "C07": dict(category="exploration", technique="bounded exhaustive enumeration of expressions (operator x operand class) and merge programs; finite-difference oracle along lines of a fixed grid using the reference interpreter on the real SSA CFG",
+   text="For every node with a claimed degree bound d in {constant, linear, quadratic} the node is evaluated at 4 points of 30 lines (6 bases x 5 directions) in the space of indeterminates (signals/ports in templates, parameters in functions); the (d+1)-th finite difference must vanish. A polynomial of total degree <= d has degree <= d on every line, so a non-zero difference proves the claim false (no false alarm possible); array bounds are audited on every element at each update. Spaces: 20 infix x 14^2 operand classes, prefix, ternary, depth-2 combinations (thorough), and control-flow merging programs.",
+   note="One-sided by construction: a vanishing difference proves nothing. Trusted: interpreter, field reference. One open known finding (array forgets an element of unknown degree).", ref="5/C07"),
  "C12": dict(category="exploration", technique="bounded exhaustive enumeration of control-flow skeletons; structural invariants + dominance by definition on the real CFG",
    text="Every control-flow skeleton (if/if-else/while/for/blocks; bare, empty and braced bodies up to 4/5 statements, braced bodies up to 7/8 statements, nesting <=3) is lifted by the real into_cfg and into_ssa as function and as template; entry/reachability/mirror/branch-position/target/successor-count invariants, i dom j => i<=j with dominance by definition, the recorded loop depth against the loop nesting the generator recorded for each statement, and edge preservation by SSA are checked on every one.",
    note="Trusted: generator span recorder (mc/src/space/prog.rs), refsem/dom.rs. Skeletons beyond the statement bound are covered only by the small-scope argument.", ref="5/C12"),
@@ -15,6 +21,9 @@ CHECKS = {
  "C14": dict(category="model_checking", technique="bounded exhaustive program enumeration + static SSA audit with dominance by definition + exhaustive path exploration of the real SSA graph tracking last-written versions",
    text="Every skeleton <=3/4 statements x every assignment of a 9-atom alphabet (assign, self-update, copy, redeclare, array element updates, parameter read/write, uninitialised declaration) x conditions x initialised/uninitialised array is converted by the real into_ssa; a static audit checks single definition, phi placement, dominance of every read by its definition (dominators recomputed by definition), unversioned signals, declaration coverage; then every path (each block visited <= unroll+1 times) is walked keeping the version written last per variable: every read must name it and every phi must list the version current on the edge taken.",
    note="Trusted: mc/src/props/c14.rs audit code, refsem/dom.rs. One open known finding (phi without argument for a path on which the variable is never assigned).", ref="5/C14"),
+ "C20": dict(category="model_checking", technique="exhaustive enumeration of every propagation cut point (pass budget 0..fix-point, hook H2) for values and degrees independently, C06/C07 oracles and all analysis passes at every cut state",
+   text="For every program of slices of the C06/C07 spaces the number of passes to the fix-point is learned, then SSA conversion is re-run with every pass budget 0..=Pv (values) and 0..=Pd (degrees): conversion must return, all 13 analysis passes must run without panic, and every value / degree claim present at that cut must satisfy the C06 / C07 oracle. States = (program, kind, cut index); transitions = passes executed; all on the real code.",
+   note="Hook H2 (pass budget next to the elapsed-time test). Budget 0 is included. A violation that is also present at the fix-point is tagged so and belongs to C06/C07.", ref="5/C20"),
  "C15": dict(category="exploration", technique="bounded exhaustive enumeration of all rooted digraphs (n<=5 quick; n=6 up to 10 edges thorough) against dominance-by-definition",
    text="Every edge set on up to 5 nodes (thorough: 6 nodes, <=10 edges) whose nodes are all reachable from the entry is pushed through the real generic DominatorTree::new and compared, node by node, with dominators/idom/children/frontier computed from their definitions (node deletion + reachability). Exhaustive within the node bound, no isomorphism reduction; small-scope argument beyond it.",
    note="Trusted: the 60-line reference in mc/src/refsem/dom.rs. The 'randomly beyond the bound' clause is sampling and not done.", ref="5/C15"),
